@@ -92,6 +92,7 @@ func runC02(r *Run) {
 	tombstoneAgreement(r)
 	viewIsolationRules(r)
 	runC06(r)
+	electionCodecRules(r) // warm cache versus stored record
 	ic := c16Aliases(r)
 	applyLoopRules(r, ic)
 }
